@@ -46,7 +46,22 @@ theorem finishGoal_sem {s0 : St} {g : Nat} {sub : Min} {s3 : St}
     rw [List.length_dropLast]; omega
   have hle : MinLe (Min.updateFrom m sub) m := updateFrom_le_left m sub
   by_cases hge : Min.ge sub s0.graph.length = true
-  · obtain ⟨cc1, hc1⟩ := A.i1.cacheOn
+  · cases hc1 : s1.cache with
+    | none =>
+      -- caching disabled: `rollback_to(dfn)`
+      have hc3 : s3.cache = none := by rw [R3.cache]; exact hc1
+      simp only [hge, if_true, hc3, rollbackTo, List.take_left, Res.ok.injEq, Prod.mk.injEq] at h
+      obtain ⟨⟨hv, hm'⟩, hs'⟩ := h
+      subst hv; subst hm'; subst hs'
+      have P : Popped s0 s1 { keptSt s3 s0.graph with cache := none } :=
+        ⟨hslen, hsget, hc1.symm, R3.oracle, R3.oracleDefault, R3.interrupted⟩
+      obtain ⟨i6, hs6, hcorr⟩ := A.finish_discard (s6 := { keptSt s3 s0.graph with cache := none }) P hfl
+        ((minGe_iff _ _).mp hge) rfl
+      refine ⟨i6, hs6 _, hle, ?_⟩
+      cases hcorr with
+      | inl hc => exact Or.inl ⟨hc.1, Or.inl hc.2⟩
+      | inr hc => exact Or.inr ⟨hc.1, hc.2, hlow hc.1⟩
+    | some cc1 =>
     have hint : s3.interrupted = false := by rw [R3.interrupted]; exact A.i1.quiet.2.2
     have hc3 : s3.cache = some cc1 := by rw [R3.cache]; exact hc1
     have hand : (cfg.fixF3 && s3.interrupted) = false := by rw [hint]; simp
@@ -85,7 +100,7 @@ theorem finishGoal_sem {s0 : St} {g : Nat} {sub : Min} {s3 : St}
 
 theorem Step.of_work {s s' : St} {w : Nat} {lb : Min} (h : Step c inst { s with work := w } s' lb) :
     Step c inst s s' lb :=
-  ⟨h.graph, h.stack, h.cacheExt, h.ext, h.low⟩
+  ⟨h.graph, h.stack, h.cacheExt, h.ext, h.low, h.cacheMode⟩
 
 theorem Fact.of_work {s s' : St} {w : Nat} {m' : Min} {g : Nat} {v : V}
     (h : Fact c inst { s with work := w } s' m' g v) : Fact c inst s s' m' g v := h
@@ -104,15 +119,14 @@ theorem solveGoal_sem (hyp : Hyp c inst dom) :
       have e0 := tick_ok cfg s s0 ht
       subst e0
       have i0 : Inv c inst dom { s with work := s.work + 1 } := hi.work _
-      obtain ⟨cc, hcc⟩ := i0.cacheOn
-      cases hc : cacheGet cc g with
+      cases hc : cacheLookup ({ s with work := s.work + 1 } : St) g with
       | some w =>
-        rw [solveGoal_cached inst cfg d g m s _ w ht cc hcc hc] at h
+        rw [solveGoal_cached inst cfg d g m s _ w ht hc] at h
         simp only [Res.ok.injEq, Prod.mk.injEq] at h
         obtain ⟨⟨hv, hm'⟩, hs'⟩ := h
         subst hv; subst hm'; subst hs'
         refine ⟨i0, Step.work s _ _, MinLe.refl _, ?_⟩
-        have hin : InCache s g w := ⟨cc, hcc, hc⟩
+        have hin : InCache s g w := (inCache_iff_lookup _ g w).mpr hc
         cases hi.cacheOK g w hin with
         | inl hk => exact Or.inl ⟨hk.1, Or.inl hk.2⟩
         | inr hk =>
@@ -122,7 +136,7 @@ theorem solveGoal_sem (hyp : Hyp c inst dom) :
         cases hl : lookup ({ s with work := s.work + 1 } : St).graph g with
         | some dfn =>
           obtain ⟨node, hn, hgo⟩ := lookup_some hl
-          rw [solveGoal_hit inst cfg d g m s _ ht cc hcc hc dfn hl node hn] at h
+          rw [solveGoal_hit inst cfg d g m s _ ht hc dfn hl node hn] at h
           have hbot : node.solution = bot c → ¬ Tgt c inst g ∧ ¬ InG c inst s g := by
             intro hb
             refine ⟨by rw [← hgo]; exact i0.approx dfn node hn hb, hi.not_inG_of_bot (Or.inr ⟨dfn, node, hn, hgo, hb⟩)⟩
@@ -172,17 +186,14 @@ theorem solveGoal_sem (hyp : Hyp c inst dom) :
             intro w hw
             cases hw with
             | inl hw =>
-              obtain ⟨cc', e, hk⟩ := hw
-              rw [hcc] at e
-              cases e
-              rw [hc] at hk
-              cases hk
+              rw [inCache_iff_lookup, hc] at hw
+              cases hw
             | inr hw =>
               obtain ⟨i, n, hn, hgo, _⟩ := hw
               exact lookup_none hl n (List.mem_of_getElem? hn) hgo
           by_cases hov : cfg.overflowDepth ≤ ({ s with work := s.work + 1 } : St).stack.length
-          · rw [solveGoal_overflow inst cfg d g m s _ ht cc hcc hc hl hov] at h; cases h
-          · rw [solveGoal_new inst cfg d g m s _ ht cc hcc hc hl hov] at h
+          · rw [solveGoal_overflow inst cfg d g m s _ ht hc hl hov] at h; cases h
+          · rw [solveGoal_new inst cfg d g m s _ ht hc hl hov] at h
             cases hloop : solveNewSubgoal inst cfg (solveGoal inst cfg d) g
                 ({ s with work := s.work + 1 } : St).stack.length ({ s with work := s.work + 1 } : St).graph.length
                 cfg.rounds (pushed inst g { s with work := s.work + 1 }) with
